@@ -2,7 +2,7 @@
 from props import v2_common as V
 from props import creators_common as cc
 
-GEN_FILES = []
+GEN_FILES = ["GenTraverse.v"]
 EXTRA_TARGETS = ["Extract/ExtractV2.vo", "Extract/ExtractCreators.vo"]
 AREAS = ["v2", "creators"]
 CREATOR_KINDS = ["v2-class", "v2-asm", "hybrid-class", "hybrid-asm"]      # v2_capable_output of the theorems
